@@ -41,6 +41,10 @@ type op struct {
 	inv     func(out, msg []byte) ([]byte, error)
 	// extra fields of the call's events (the caller's JWT type header and payload, for the spec's own decoding)
 	meta func(in []byte) map[string]any
+	// producing operations that take associated data / context info: the same call with a chosen AD buffer, and
+	// its alone inverse (the shared-buffer phase passes ONE message buffer and shared AD buffers to all goroutines)
+	ad    func(in, ad []byte) ([]byte, error)
+	invAD func(out, ad []byte) ([]byte, error)
 }
 
 // adFor varies the SHAPE of the associated data with the message: nil, empty, or bytes depending on it.
@@ -72,8 +76,14 @@ func okBytes(err error) ([]byte, error) {
 func encryptStream(p interface {
 	NewEncryptingWriter(io.Writer, []byte) (io.WriteCloser, error)
 }, msg []byte) ([]byte, error) {
+	return encryptStreamAD(p, msg, adFor(msg))
+}
+
+func encryptStreamAD(p interface {
+	NewEncryptingWriter(io.Writer, []byte) (io.WriteCloser, error)
+}, msg, aad []byte) ([]byte, error) {
 	var b bytes.Buffer
-	w, err := p.NewEncryptingWriter(&b, adFor(msg))
+	w, err := p.NewEncryptingWriter(&b, aad)
 	if err != nil {
 		return nil, err
 	}
@@ -102,7 +112,13 @@ func encryptStream(p interface {
 func decryptStream(p interface {
 	NewDecryptingReader(io.Reader, []byte) (io.Reader, error)
 }, ct, msg []byte) ([]byte, error) {
-	r, err := p.NewDecryptingReader(bytes.NewReader(ct), adFor(msg))
+	return decryptStreamAD(p, ct, adFor(msg))
+}
+
+func decryptStreamAD(p interface {
+	NewDecryptingReader(io.Reader, []byte) (io.Reader, error)
+}, ct, aad []byte) ([]byte, error) {
+	r, err := p.NewDecryptingReader(bytes.NewReader(ct), aad)
 	if err != nil {
 		return nil, err
 	}
@@ -202,6 +218,7 @@ func opsFor(t *conc.Target, h *keyset.Handle) []*op {
 		p, err := aead.New(h)
 		must(err, t.Name)
 		add(&op{name: "Encrypt", rand: true, call: func(in, _ []byte) ([]byte, error) { return p.Encrypt(in, adFor(in)) },
+			ad: p.Encrypt, invAD: p.Decrypt,
 			invName: "Decrypt", inv: func(out, msg []byte) ([]byte, error) { return p.Decrypt(out, adFor(msg)) }})
 		add(&op{name: "Decrypt", from: "Encrypt", call: func(in, msg []byte) ([]byte, error) { return p.Decrypt(in, adFor(msg)) }})
 		add(&op{name: "aead.New+Decrypt", from: "Encrypt", call: func(in, msg []byte) ([]byte, error) {
@@ -214,7 +231,8 @@ func opsFor(t *conc.Target, h *keyset.Handle) []*op {
 	case "daead":
 		p, err := daead.New(h)
 		must(err, t.Name)
-		add(&op{name: "EncryptDeterministically", call: func(in, _ []byte) ([]byte, error) { return p.EncryptDeterministically(in, adFor(in)) }})
+		add(&op{name: "EncryptDeterministically", call: func(in, _ []byte) ([]byte, error) { return p.EncryptDeterministically(in, adFor(in)) },
+			ad: p.EncryptDeterministically})
 		add(&op{name: "DecryptDeterministically", from: "EncryptDeterministically", call: func(in, msg []byte) ([]byte, error) { return p.DecryptDeterministically(in, adFor(msg)) }})
 		add(&op{name: "daead.New+EncryptDeterministically", call: func(in, _ []byte) ([]byte, error) {
 			q, err := daead.New(h)
@@ -299,6 +317,7 @@ func opsFor(t *conc.Target, h *keyset.Handle) []*op {
 		d, err := hybrid.NewHybridDecrypt(h)
 		must(err, t.Name)
 		add(&op{name: "Encrypt", rand: true, call: func(in, _ []byte) ([]byte, error) { return e.Encrypt(in, adFor(in)) },
+			ad: e.Encrypt, invAD: d.Decrypt,
 			invName: "Decrypt", inv: func(out, msg []byte) ([]byte, error) { return d.Decrypt(out, adFor(msg)) }})
 		add(&op{name: "Decrypt", from: "Encrypt", call: func(in, msg []byte) ([]byte, error) { return d.Decrypt(in, adFor(msg)) }})
 		add(&op{name: "hybrid.NewHybridDecrypt+Decrypt", from: "Encrypt", call: func(in, msg []byte) ([]byte, error) {
@@ -321,6 +340,8 @@ func opsFor(t *conc.Target, h *keyset.Handle) []*op {
 		p, err := streamingaead.New(h)
 		must(err, t.Name)
 		add(&op{name: "NewEncryptingWriter", rand: true, call: func(in, _ []byte) ([]byte, error) { return encryptStream(p, in) },
+			ad:      func(in, aad []byte) ([]byte, error) { return encryptStreamAD(p, in, aad) },
+			invAD:   func(out, aad []byte) ([]byte, error) { return decryptStreamAD(p, out, aad) },
 			invName: "NewDecryptingReader", inv: func(out, msg []byte) ([]byte, error) { return decryptStream(p, out, msg) }})
 		add(&op{name: "NewDecryptingReader", from: "NewEncryptingWriter", call: func(in, msg []byte) ([]byte, error) { return decryptStream(p, in, msg) }})
 		add(&op{name: "streamingaead.New+NewDecryptingReader", from: "NewEncryptingWriter", call: func(in, msg []byte) ([]byte, error) {
